@@ -497,8 +497,8 @@ func TestVerifC03ClientTCPResponse(t *testing.T) {
 	var heads [][]byte
 	for _, st := range []byte{0, 1, 0xff} {
 		heads = append(heads, []byte{st})
-		for _, l := range []uint64{0, 1, 2048, 2049} {
-			for _, w := range []int{1, 2, 8} {
+		for _, l := range []uint64{1<<62 - 1, 0, 1, 2048, 2049} {
+			for _, w := range []int{8, 2, 1} {
 				heads = append(heads, vfC03Cat([]byte{st}, vfC03Varint(l, w)))
 			}
 		}
